@@ -8,7 +8,7 @@ PROPERTY = 'C09'
 LEVEL = 'exploration'
 RULE = ('cases = exchanges between one real stack and a scripted conforming peer (or a second real stack) on both data link layers: stack originator vs '
         'reference responder that grants 1..min(RTS limit, remaining) packets per CTS (random / one / maximum) and sends 0-3 hold CTS before the first '
-        'grant and between windows, incl. holds refreshed for longer than 0.5 s in total; reference originator with RTS limits 1..255 vs stack responder '
+        'grant and between windows, incl. holds refreshed for longer than 0.5 s in total and holds that the responder lets expire (next CTS 0.55..1.2 s later); reference originator with RTS limits 1..255 vs stack responder '
         'with max_cmdt_packets 1..255; stack broadcasts with minimum_tp_bam_dt_interval in {default, 10..190 ms}; connection-mode transfers with '
         'minimum_tp_rts_cts_dt_interval in {None, 1..50 ms}; all message sizes, latencies in [0,5 ms] (zero on J1939-21); oracle on the bus log (independent '
         'sniffer): no data packet before the first CTS, at most the granted number after each CTS, none after a hold until a new CTS, sequence numbers as '
@@ -19,7 +19,7 @@ RULE = ('cases = exchanges between one real stack and a scripted conforming peer
 ASSUMPTIONS = ['the configured connection-mode interval is judged between consecutive packets of one CTS window (a new CTS is the responder\'s explicit clearance for the next packet)',
                'time stamps are the virtual instants at which the stack hands frames to its send backend; tolerance 2 us for "no closer", 2 ms for "no further apart"']
 MIN_OBS = {'exchanges': {'quick': 1200, 'thorough': 25000}, 'cts_checked': {'quick': 4000, 'thorough': 100000}, 'dt_checked': {'quick': 25000, 'thorough': 500000},
-           'holds_exercised': {'quick': 500, 'thorough': 10000}, 'bam_gaps_measured': {'quick': 3000, 'thorough': 60000}, 'cmdt_gaps_measured': {'quick': 1500, 'thorough': 30000}}
+           'holds_exercised': {'quick': 500, 'thorough': 10000}, 'expired_holds': {'quick': 30, 'thorough': 600}, 'bam_gaps_measured': {'quick': 3000, 'thorough': 60000}, 'cmdt_gaps_measured': {'quick': 1500, 'thorough': 30000}}
 
 
 def cases(tier, seed):
@@ -35,6 +35,12 @@ def cases(tier, seed):
             if r > 0.5:
                 c['holds'] = rng.choice([(1, 3), (2, 3)])
                 c['hold_between'] = 0.5
+            if r > 0.85:
+                # the responder lets a hold expire (next CTS 0.55..1.2 s after the last hold): a correct originator gives the connection up,
+                # it never sends data on its own
+                c['holds'] = (1, 2)
+                c['late_after_hold'] = (0.55, 1.2)
+                c['size'] = min(c['size'], 400 if c['layer'] == 'j1939-22' else 60)
         if c['role'] == 'stack_bam_tx' and r < 0.7:
             c['bam_interval'] = rng.choice([0.01, 0.02, 0.05, 0.1, 0.15, 0.19])
         out.append(c)
